@@ -34,8 +34,9 @@ import ll2c  # noqa: E402
 ENV = dict(os.environ, CARGO_NET_OFFLINE='true')
 ENV.pop('RUSTFLAGS', None)
 NOVEC = '-C no-vectorize-slp -C no-vectorize-loops'
+# the libc models in the prelude loop over a byte count: their bound is the largest object compared (generous)
 CBMC_BASE = ['--no-standard-checks', '--bounds-check', '--pointer-check', '--unwinding-assertions',
-             '--unwindset', 'vf_havoc_c.0:1100', '--sat-solver', 'cadical', '--object-bits', '10', '--json-ui']
+             '--unwindset', 'vf_havoc_c.0:1100,vf_libc_bcmp.0:130,vf_libc_memcmp.0:130', '--sat-solver', 'cadical', '--object-bits', '10', '--json-ui']
 SLICE = ['--slice-formula']   # cone-of-influence reduction; not used for trace runs (the replay log must stay in the formula)
 JOBS = int(os.environ.get('VERIF_JOBS', '16'))
 
@@ -258,7 +259,7 @@ def prepare(ob, T):
     except ll2c.TranslateError as e:
         return {'ob': ob.name, 'harness': ob.harness, 'family': ob.family, 'profile': ob.profile, 'verdict': 'inconclusive',
                 'why': str(e), 'secs': 0}
-    bad = [x for x in info['externs'] if x not in prelude_externs()]
+    bad = [x for x in info['externs'] if x not in prelude_externs() and 'vf_libc_' + x not in prelude_externs()]
     if bad:
         return {'ob': ob.name, 'harness': ob.harness, 'family': ob.family, 'profile': ob.profile, 'verdict': 'inconclusive',
                 'why': 'calls to body-less externals: %s' % bad, 'secs': 0}
